@@ -94,11 +94,15 @@ func (a *stActor) do(op stOp, tag string, inCallback func()) (err error) {
 		if inCallback != nil {
 			inCallback()
 		}
+		if op.K == "clear" {
+			status.ExtraData = nil // what the daemon does when a command's runner has gone
+			return
+		}
 		stAppend(status, tag, op.D)
 	}
 	if a.kind == "bwu" {
 		switch op.K {
-		case "app":
+		case "app", "clear":
 			a.bwu.UpdateFullStatus(cb)
 			return a.bwu.LastUpdateError()
 		case "basic":
@@ -114,7 +118,7 @@ func (a *stActor) do(op stOp, tag string, inCallback func()) (err error) {
 		return fmt.Errorf("bad op %s", op.K)
 	}
 	switch op.K {
-	case "app":
+	case "app", "clear":
 		return a.sfd.UpdateFullStatus(a.file, cb)
 	case "basic":
 		return a.sfd.UpdateBasicStatus(a.file, op.St, op.D, op.Sz)
@@ -540,6 +544,17 @@ func stGen(v *verifRun) {
 		}
 		rounds := 2 + v.rng.Intn(4)
 		seq := 0
+		if nT >= 2 && v.rng.Intn(3) == 0 {
+			// a writer that is used again after somebody else emptied the extra data: what it re-reads must replace what it holds
+			wa := v.rng.Intn(nT)
+			wb := v.rng.Intn(nT)
+			for wb == wa {
+				wb = v.rng.Intn(nT)
+			}
+			addRound(-1, map[int][]stOp{wa: {{K: "app"}}})
+			addRound(-1, map[int][]stOp{wb: {{K: "clear"}}})
+			addRound(-1, map[int][]stOp{wa: {{K: "basic", St: 1, D: "after-clear", Sz: 3}}})
+		}
 		for r := 0; r < rounds; r++ {
 			switch k := v.rng.Intn(10); {
 			case k < 6: // mixed: appends everywhere, one scalar writer, optional holder
